@@ -46,6 +46,7 @@ def check(repo, tier="quick"):
         "bounded-block bookkeeping between BitstreamReader and BitstreamWriter; mirrored shapes of bit order, byte advance and sign "
         "handling; syntax-directed count of the bits write_uint/write_sint emit against the closed-form length functions."
     )
+    res.rule("C20.f", "bug patterns with zero expected instances in this property's modules: swapped same-named arguments, lower-bound guard followed by a decrement of the guarded value, presence of a dictionary entry decided by truthiness")
     res.rule("C20.a", "no bit is emitted for a rejected value: an OutOfRangeError guard dominates the first write in write_nbits/write_bitarray/write_bytes/write_uint, and exp_golomb_length rejects negatives")
     res.rule("C20.b", "bounded-block bookkeeping (begin/end/bits_remaining/seek preamble/decrement-and-test) is the same program in reader and writer; past-the-end arms are `return 1` vs `raise ValueError iff value is 0`")
     res.rule("C20.c", "bit order and byte advance mirror each other: MSB-first fixed-width integers, shared _next_bit discipline, zero padding to the declared length")
@@ -62,6 +63,10 @@ def check(repo, tier="quick"):
     rule_c(repo, res, R, W, where)
     rule_d(repo, res, R, W, where)
     rule_e(repo, res, R, W, where)
+    from .. import lints as _lints
+
+    _lints.rule(repo, res, "C20.f", ['bitstream.io', 'bitstream.exp_golomb'])
+    res.floor("C20.f", 3)
     res.floor("C20.e", 10)
     res.floor("C20.a", 5)
     res.floor("C20.b", 6)
